@@ -3,7 +3,7 @@ from gen import client_hist
 from props import c08 as common
 
 
-def classify(name, cfg, ops, term, code):
+def classify(name, cfg, ops, results, code):
     i, mask = common.where(code)
     o = ops[i] if i < len(ops) else ('?',)
     return 'c09-%s-%s' % (common.clause_names(mask, common.C09_CLAUSES), o[0])
